@@ -30,7 +30,8 @@ func oneRule(i int, sal int64, extra string) string {
 
 // rulesTextOpt is rulesText with optional statements before the fault, chosen
 // by letters: g = "if g<i> { return v<i> }", q = "if q<i> { return one / zero }",
-// h = "if h<i> { return }", t = "if t<i> { stag.StopTag = true }".
+// h = "if h<i> { return }", t = "if t<i> { stag.StopTag = true }", r = the rule fails through an
+// integer used as a condition (no node-level recover) when f<i> holds.
 func rulesTextOpt(n int, sal []int64, opts string) string {
 	t := ""
 	for i := 0; i < n; i++ {
@@ -46,6 +47,9 @@ func rulesTextOpt(n int, sal []int64, opts string) string {
 				extra += " if h" + k + " {\n  return\n }\n"
 			case 't':
 				extra += " if t" + k + " {\n  stag.StopTag = true\n }\n"
+			case 'r':
+				// a fault only the rule-level recover catches (an integer as condition) instead of the division
+				extra += " if f" + k + " {\n  if one {\n   z = 1\n  }\n }\n"
 			}
 		}
 		t += oneRule(i, sal[i], extra)
